@@ -18,6 +18,7 @@ class Raises:
     modifies: list = field(default_factory=list)
     anysub: bool = False          # the raised class is `exc` or any subclass
     bind: str | None = None       # name under which the exception value is visible in `ensures`
+    fields: dict = field(default_factory=dict)    # attributes of the raised exception: name -> type string
 
 
 @dataclass
@@ -53,6 +54,7 @@ class Contract:
     result_fields: dict = field(default_factory=dict)
     cancel_at_yield: bool = False             # explore CancelledError at every await of this function
     inline: bool = False
+    result_expr: str | None = None            # the result is this (existing) value, not a fresh one
     fresh: dict = field(default_factory=dict)      # name -> (type string, witness expr): values created by the function
 
 
